@@ -3,7 +3,10 @@
    Items are trees: Go's pointer identity ([seen] map: sharing shortcut and ErrRecursive for cycles) is not
    modelled — a shared sub-item serialises to the same bytes as its copy.
    Correct behaviour is modelled where the unchanged tree panics: an Integer whose length prefix exceeds 32
-   is an error (F11; an element count >= 2^63 likewise, F28), a Map key that is not Boolean/Integer/ByteString<=64 is an error (F17). *)
+   is an error (F11; an element count >= 2^63 likewise, F28), a Map key that is not Boolean/Integer/ByteString<=64 is an error (F17).
+   PROTECTED mode ([prot = true]: EncodeBinaryProtected / DecodeBinaryProtected / SerializationContext.Serialize(item, true),
+   used for the stacks of application execution results): interop items (type only), pointers (position only) and the
+   nil item are representable; in normal mode they are refused by both directions. *)
 From NG Require Import Common.Tactics Codec.Bigint Codec.Wire.
 Open Scope Z_scope.
 
@@ -15,7 +18,10 @@ Inductive item :=
 | IBuffer (b : list Z)
 | IArray (l : list item)
 | IStruct (l : list item)
-| IMap (l : list (item * item)).
+| IMap (l : list (item * item))
+| IInterop                      (* protected mode only: the value is not serialised *)
+| IPointer (pos : Z)            (* protected mode only: position as a var-uint, script hash lost *)
+| IInvalid.                     (* protected mode only: Go's nil item *)
 
 Definition max_items : nat := 2048.
 Definition max_size : Z := 131070.        (* stackitem.MaxSize = math.MaxUint16 * 2 *)
@@ -33,6 +39,9 @@ Fixpoint enc_item (i : item) : list Z :=
   | IArray l => 64 :: write_varuint (Z.of_nat (length l)) ++ (fix el (l : list item) := match l with [] => [] | x :: t => enc_item x ++ el t end) l
   | IStruct l => 65 :: write_varuint (Z.of_nat (length l)) ++ (fix el (l : list item) := match l with [] => [] | x :: t => enc_item x ++ el t end) l
   | IMap l => 72 :: write_varuint (Z.of_nat (length l)) ++ (fix el (l : list (item * item)) := match l with [] => [] | (k, v) :: t => enc_item k ++ enc_item v ++ el t end) l
+  | IInterop => [96]
+  | IPointer pos => 16 :: write_varuint pos
+  | IInvalid => [255]
   end.
 
 (* number of items including the item itself *)
@@ -45,7 +54,7 @@ Fixpoint count_item (i : item) : nat :=
 
 (* ---- Serialize: the mechanism threads the output buffer and the remaining item budget ---- *)
 (* state = (data written so far, remaining limit) ; None = error *)
-Fixpoint ser (i : item) (st : list Z * nat) : option (list Z * nat) :=
+Fixpoint ser (prot : bool) (i : item) (st : list Z * nat) : option (list Z * nat) :=
   let '(data, lim) := st in
   match lim with
   | O => None                                             (* w.limit-- ; if w.limit < 0 *)
@@ -63,26 +72,32 @@ Fixpoint ser (i : item) (st : list Z * nat) : option (list Z * nat) :=
       | IBuffer b => after (Some (data ++ 48 :: write_varbytes b, lim'))
       | IArray l =>
           after ((fix sl (l : list item) (st : list Z * nat) : option (list Z * nat) :=
-                    match l with [] => Some st | x :: t => match ser x st with Some st' => sl t st' | None => None end end)
+                    match l with [] => Some st | x :: t => match ser prot x st with Some st' => sl t st' | None => None end end)
                    l (data ++ 64 :: write_varuint (Z.of_nat (length l)), lim'))
       | IStruct l =>
           after ((fix sl (l : list item) (st : list Z * nat) : option (list Z * nat) :=
-                    match l with [] => Some st | x :: t => match ser x st with Some st' => sl t st' | None => None end end)
+                    match l with [] => Some st | x :: t => match ser prot x st with Some st' => sl t st' | None => None end end)
                    l (data ++ 65 :: write_varuint (Z.of_nat (length l)), lim'))
       | IMap l =>
           after ((fix sl (l : list (item * item)) (st : list Z * nat) : option (list Z * nat) :=
                     match l with
                     | [] => Some st
-                    | (k, v) :: t => match ser k st with
-                                     | Some st' => match ser v st' with Some st'' => sl t st'' | None => None end
+                    | (k, v) :: t => match ser prot k st with
+                                     | Some st' => match ser prot v st' with Some st'' => sl t st'' | None => None end
                                      | None => None
                                      end
                     end)
                    l (data ++ 72 :: write_varuint (Z.of_nat (length l)), lim'))
+      | IInterop => if prot then after (Some (data ++ [96], lim')) else None
+      | IPointer pos => if prot then after (Some (data ++ 16 :: write_varuint pos, lim')) else None
+      | IInvalid => if prot then after (Some (data ++ [255], lim')) else None
       end
   end.
-Definition serialize (i : item) : option (list Z) :=
-  match ser i ([], max_items) with Some (d, _) => Some d | None => None end.
+Definition serialize_gen (prot : bool) (i : item) : option (list Z) :=
+  match ser prot i ([], max_items) with Some (d, _) => Some d | None => None end.
+Definition serialize (i : item) : option (list Z) := serialize_gen false i.
+(* SerializationContext.Serialize(item, true) / EncodeBinaryProtected: any failure is replaced by the Invalid marker *)
+Definition serialize_prot (i : item) : list Z := match serialize_gen true i with Some d => d | None => [255] end.
 
 (* ---- map keys (IsValidMapKey, Map.Add with hashCode = type byte ++ bytes) ---- *)
 Definition valid_key (k : item) : bool :=
@@ -133,7 +148,7 @@ Fixpoint read_pairs (rd : rdec item) (n : nat) (acc : list (item * item)) (lim :
             end
   end.
 
-Fixpoint read_item (fuel : nat) : rdec item :=
+Fixpoint read_item (prot : bool) (fuel : nat) : rdec item :=
   fun lim bs =>
   match fuel with
   | O => None
@@ -153,7 +168,7 @@ Fixpoint read_item (fuel : nat) : rdec item :=
                 match read_varuint r with
                 | Some (n, r') =>
                     if Z.of_nat lim' <? n then None else
-                    match read_items (read_item f) (Z.to_nat n) lim' r' with
+                    match read_items (read_item prot f) (Z.to_nat n) lim' r' with
                     | Some (l, lim'', r'') => Some ((if t =? 64 then IArray l else IStruct l), lim'', r'')
                     | None => None
                     end
@@ -163,12 +178,15 @@ Fixpoint read_item (fuel : nat) : rdec item :=
                 match read_varuint r with
                 | Some (n, r') =>
                     if Z.of_nat (lim' / 2) <? n then None else
-                    match read_pairs (read_item f) (Z.to_nat n) [] lim' r' with
+                    match read_pairs (read_item prot f) (Z.to_nat n) [] lim' r' with
                     | Some (l, lim'', r'') => Some (IMap l, lim'', r'')
                     | None => None
                     end
                 | None => None
                 end
+              else if prot && (t =? 96) then Some (IInterop, lim', r)
+              else if prot && (t =? 16) then match read_varuint r with Some (p, r') => Some (IPointer p, lim', r') | None => None end
+              else if prot && (t =? 255) then Some (IInvalid, lim', r)
               else None
           end
       end
@@ -176,5 +194,9 @@ Fixpoint read_item (fuel : nat) : rdec item :=
 
 (* Deserialize(data): fuel = length of the input (every nesting level consumes a byte); trailing bytes are ignored
    by the Go function as well *)
-Definition deserialize (bs : list Z) : option item :=
-  match read_item (S (length bs)) max_items bs with Some (i, _, _) => Some i | None => None end.
+Definition deserialize_gen (prot : bool) (bs : list Z) : option item :=
+  match read_item prot (S (length bs)) max_items bs with Some (i, _, _) => Some i | None => None end.
+Definition deserialize (bs : list Z) : option item := deserialize_gen false bs.
+(* one item from a stream (stackitem.DecodeBinary / DecodeBinaryProtected on a reader): a fresh budget, the rest is returned *)
+Definition read_item_dec (prot : bool) : dec item :=
+  fun bs => match read_item prot (S (length bs)) max_items bs with Some (i, _, r) => Some (i, r) | None => None end.
